@@ -26,9 +26,21 @@ FILES = [b"x=1\ny=Two Words\n[A]\nx=Yes\nz=\n[B]\nw = \"q # t\" # c\n", b"# lead
          b"x=0x1F\n[A]\ny=-12\n[A]\nx=077\n", b"", b"[broken\n", b"k=v\nbad line without delimiter\n"]
 
 
+LONGVAL = b"m=line0\n" + b"".join(b"   line%d of the value\n" % k for k in range(1, 40))
+
+
 def thread_scenario(rng, sid, i, base):
     pre = base + b"/t%d" % i
     s = Scenario(sid, {"thread": i})
+    if rng.random() < 0.3:
+        # many extended-value queries on a value of many lines: the line splitting of the getter runs for a while in every thread
+        p = pre + b"/long.conf"
+        s.file(p, LONGVAL + b"k=%d\n" % i)
+        s.add("RF", 0, h(p), h(b"="), h(b"#"))
+        for _ in range(rng.randint(30, 80)):
+            s.add("EXT", 0, "-", h(b"m"))
+        s.add("GET", 0, "str", "-", h(b"k"))
+        s.add("FREE", 0)
     for _ in range(rng.randint(1, 3)):
         r = rng.random()
         if r < 0.4:
